@@ -226,10 +226,21 @@ class G:
             a = [(href, "#" + tgt)] + ([("x", self.number()), ("y", self.number())] if r.random() < 0.7 else []) + ([("width", self.length()), ("height", self.length())] if r.random() < 0.2 else [])
         elif k == "text":
             content = r.choice(["Hello", "a &amp; b", "x &lt; y", "multi word text", "  padded  ", "&#169; 2024"])
-            xs = self.number() if r.random() < 0.6 else " ".join(self.number(0, 100, plain=True) for _ in range(3))
-            if " " in xs:
-                self.feats.add("text.coordinate-list")
-            a = ([("x", xs), ("y", self.number())] if r.random() < 0.85 else []) + ([("dx", self.number(-5, 5)), ("dy", "1 2 3")] if r.random() < 0.2 else []) + \
+            def coord():
+                kk = r.random()
+                if kk < 0.5:
+                    return self.number()
+                if kk < 0.7:
+                    self.feats.add("text.coordinate-list")
+                    return " ".join(self.number(0, 100, plain=True) for _ in range(3))
+                self.feats.add("text.coordinate-unit")
+                return self.number(0, 100, plain=True) + r.choice(["%", "em", "mm", "px", "ex"])
+            # either coordinate may be left out (SVG default 0)
+            pres_k = r.random()
+            xy = [("x", coord()), ("y", coord())] if pres_k < 0.6 else [("x", coord())] if pres_k < 0.75 else [("y", coord())] if pres_k < 0.9 else []
+            if len(xy) == 1:
+                self.feats.add("text.single-coordinate")
+            a = xy + ([("dx", self.number(-5, 5)), ("dy", "1 2 3")] if r.random() < 0.2 else []) + \
                 ([("text-anchor", "middle")] if r.random() < 0.3 else []) + ([("rotate", "10 20")] if r.random() < 0.1 else [])
             return "<text%s>%s</text>" % (self.attrs_text(ida + a + pres), content)
         elif k == "text-tspan":
